@@ -20,6 +20,9 @@
 #ifndef VMAX
 #define VMAX 1000
 #endif
+#ifndef ADD3_ANY  // 3-input node (inputs with repetition): 0 = only as the last statement, 1 = at any statement
+#define ADD3_ANY 0
+#endif
 #ifndef RD2_FULL  // two-rank-dependency family: all ordered pairs of pairs (small NNODES) or only chains a2 -> a1 -> b1
 #define RD2_FULL (NNODES <= 4)
 #endif
@@ -28,7 +31,7 @@ namespace c01 {
 using namespace hk;
 
 constexpr int MAXID = NNODES + 6;  // user node ids: base program + nodes added by the extras
-enum Kind : int { K_SRC = 0, K_ADD1, K_ADD2 };
+enum Kind : int { K_SRC = 0, K_ADD1, K_ADD2, K_ADD3 };
 enum Extra : int {
     X_NONE = 0,
     X_FEEDBACK,   // F = add2(last, fb()); fb(F)                                  (stdlib::feedback source + sink)
@@ -45,7 +48,7 @@ enum Extra : int {
 struct Prog {
     int n = 0;
     int kind[NNODES];
-    int in0[NNODES], in1[NNODES];
+    int in0[NNODES], in1[NNODES], in2[NNODES];
     bool via_tsl = false;  // 2-input nodes take their inputs as one TSL<TS<Int>,2> structural source
     int extra = X_NONE;
     int xp = 0, xq = 0;    // extra operands (node ids)
@@ -92,10 +95,10 @@ inline void choose_base(Prog &p) {
     p.kind[0] = K_SRC;
     p.nsrc = 1;
     for (int i = 1; i < p.n; i++) {
-        int k = verif_choice("kind", 3);
+        int k = verif_choice("kind", (ADD3_ANY || i == p.n - 1) ? 4 : 3);
         if (k == K_SRC) { verif_assume(p.nsrc < MAXSRC); p.nsrc++; }
         p.kind[i] = k;
-        p.in0[i] = p.in1[i] = -1;
+        p.in0[i] = p.in1[i] = p.in2[i] = -1;
         if (k == K_ADD1) p.in0[i] = verif_choice("in0", i);
         if (k == K_ADD2) {
             verif_assume(i >= 2);
@@ -104,12 +107,20 @@ inline void choose_base(Prog &p) {
             verif_assume(p.in0[i] < p.in1[i]);  // symmetric duplicates and same-port fan-in pruned
         }
         if (p.in0[i] >= 0) p.reads[i][p.in0[i]] = true;
+        if (k == K_ADD3) {  // three inputs among the earlier ports, repetition allowed (slot order non-decreasing)
+            p.in0[i] = verif_choice("in0", i);
+            p.in1[i] = verif_choice("in1", i);
+            p.in2[i] = verif_choice("in2", i);
+            verif_assume(p.in0[i] <= p.in1[i] && p.in1[i] <= p.in2[i]);
+            p.reads[i][p.in0[i]] = true;
+        }
         if (p.in1[i] >= 0) p.reads[i][p.in1[i]] = true;
+        if (p.in2[i] >= 0) p.reads[i][p.in2[i]] = true;
     }
     p.nuser = p.n;
 }
 inline bool has_add2(const Prog &p) {
-    for (int i = 1; i < p.n; i++) if (p.kind[i] == K_ADD2) return true;
+    for (int i = 1; i < p.n; i++) if (p.kind[i] == K_ADD2 || p.kind[i] == K_ADD3) return true;
     return p.extra == X_NESTED;
 }
 
@@ -175,6 +186,24 @@ struct CAddL {
         on_eval(id.value(), v);
     }
 };
+struct CAdd3 {
+    static constexpr auto name = "c01_add3";
+    static void eval(In<"a", TS<Int>, InputValidity::Unchecked> a, In<"b", TS<Int>, InputValidity::Unchecked> b, In<"c", TS<Int>, InputValidity::Unchecked> c,
+                     Scalar<"id", Int> id, Out<TS<Int>> out) {
+        Int v = (a.valid() ? a.value() : Int{0}) + 3 * (b.valid() ? b.value() : Int{0}) + 9 * (c.valid() ? c.value() : Int{0}) + node_const(id.value());
+        out.set(v);
+        on_eval(id.value(), v);
+    }
+};
+struct CAddL3 {
+    static constexpr auto name = "c01_addl3";
+    static void eval(In<"l", TSL<TS<Int>, 3>, InputValidity::Unchecked> l, Scalar<"id", Int> id, Out<TS<Int>> out) {
+        Int v = (l[0].valid() ? l[0].value() : Int{0}) + 3 * (l[1].valid() ? l[1].value() : Int{0}) + 9 * (l[2].valid() ? l[2].value() : Int{0}) +
+                node_const(id.value());
+        out.set(v);
+        on_eval(id.value(), v);
+    }
+};
 struct CRef {
     static constexpr auto name = "c01_ref";
     static void eval(In<"ref", REF<TS<Int>>> ref, Scalar<"id", Int> id, Out<REF<TS<Int>>> out) {
@@ -200,6 +229,30 @@ inline WiringPortRef wire_add2(Wiring &w, bool via_tsl, const WiringPortRef &a, 
     return wire<CAdd2>(w, Port<void>{w, a}, Port<void>{w, b}, id).erased();
 }
 
+inline WiringPortRef wire_add3(Wiring &w, bool via_tsl, const WiringPortRef &a, const WiringPortRef &b, const WiringPortRef &c, Int id) {
+    if (via_tsl) return wire<CAddL3>(w, {a, b, c}, id).erased();
+    return wire<CAdd3>(w, Port<void>{w, a}, Port<void>{w, b}, Port<void>{w, c}, id).erased();
+}
+// the base program reads one producer through two inputs of one node
+inline bool reads_same_twice(const Prog &p) {
+    for (int i = 1; i < p.n; i++)
+        if (p.kind[i] == K_ADD3 && (p.in0[i] == p.in1[i] || p.in1[i] == p.in2[i])) return true;
+    return false;
+}
+// a multi-input node whose (TSL) elements sit at least two levels apart below a common ancestor chain
+inline bool elements_two_levels_apart(const Prog &p) {
+    for (int i = 1; i < p.n; i++) {
+        int ins[3] = {p.in0[i], p.in1[i], p.in2[i]};
+        for (int x = 0; x < 3; x++)
+            for (int y = 0; y < 3; y++) {
+                if (ins[x] < 0 || ins[y] < 0 || ins[x] == ins[y]) continue;
+                for (int m = 0; m < p.n; m++)
+                    if (m != ins[x] && m != ins[y] && depends(p, ins[y], m) && depends(p, m, ins[x])) return true;
+            }
+    }
+    return false;
+}
+
 // Wire the base program into w (statement order = id order); fills b.
 inline void wire_base(Wiring &w, const Prog &p, Built &b) {
     int ns = 0;
@@ -207,6 +260,7 @@ inline void wire_base(Wiring &w, const Prog &p, Built &b) {
         if (p.kind[i] == K_SRC) { g_src_index[i] = ns++; b.port[i] = wire<CSrc>(w, Int{i}).erased(); }
         if (p.kind[i] == K_ADD1) b.port[i] = wire<CAdd1>(w, Port<void>{w, b.port[p.in0[i]]}, Int{i}).erased();
         if (p.kind[i] == K_ADD2) b.port[i] = wire_add2(w, p.via_tsl, b.port[p.in0[i]], b.port[p.in1[i]], Int{i});
+        if (p.kind[i] == K_ADD3) b.port[i] = wire_add3(w, p.via_tsl, b.port[p.in0[i]], b.port[p.in1[i]], b.port[p.in2[i]], Int{i});
         b.inst[i] = b.port[i].peered_node();
     }
 }
@@ -232,6 +286,9 @@ inline void add_rd(Prog &p, int node, int on) {
 inline void choose_extra(Prog &p, int nextras, bool reorder_only) {
     p.extra = verif_choice("extra", nextras);
     const int n = p.n;
+    // programs with a 3-input node are combined only with the order-relevant extras (keeps the family within the quick budget)
+    for (int i = 1; i < n; i++)
+        if (p.kind[i] == K_ADD3) verif_assume(p.extra == X_NONE || p.extra == X_RANKDEP);
     switch (p.extra) {
         case X_FEEDBACK: {
             p.xp = verif_choice("xp", n);
